@@ -281,7 +281,23 @@ func vhOrchSP(skip bool) *SAMLServiceProvider {
 		SkipSignatureValidation:     skip,
 		SPKeyStore:                  dsig.TLSCertKeyStore(vhTLSCert()),
 	}
+	vhNoiseConfig(sp)
 	return sp
+}
+
+// vhNoiseConfig: configuration that no incoming-message decision may depend on (endpoints and bindings of the
+// IdP, request-building options) gets arbitrary values, so a check that starts to consult one of them is seen.
+func vhNoiseConfig(sp *SAMLServiceProvider) {
+	sp.IdentityProviderSSOURL = vString("cfg.idpSSOURL")
+	sp.IdentityProviderSSOBinding = vString("cfg.idpSSOBinding")
+	sp.IdentityProviderSLOURL = vString("cfg.idpSLOURL")
+	sp.IdentityProviderSLOBinding = vString("cfg.idpSLOBinding")
+	sp.ServiceProviderIssuer = vString("cfg.spIssuer")
+	sp.NameIdFormat = vString("cfg.nameIdFormat")
+	sp.SignAuthnRequestsAlgorithm = vString("cfg.signAlgorithm")
+	sp.SignAuthnRequests = vBool("cfg.signAuthnRequests")
+	sp.ForceAuthn = vBool("cfg.forceAuthn")
+	sp.IsPassive = vBool("cfg.isPassive")
 }
 
 // vhSameAssertion: field-for-field equality between a returned assertion and a scenario assertion.
@@ -526,7 +542,7 @@ func VH_C12_routing() {
 	vAssume(vAnd(limit >= 0, limit <= 1<<27))
 	sp.MaximumDecompressedBodySize = limit
 	eff := vIteI(limit == 0, 5*1024*1024, limit)
-	s := &vhScenario{rootSig: vChoice("root.sig", 2)}
+	s := &vhScenario{rootSig: vChoice("root.sig", 2), issuerOptional: true}
 	s.root = vhResponseRoot(s, "samlp:Response")
 	a := vhAssertionEl("c0", vhSigValid)
 	vAssume(a.ID != s.ID)
@@ -551,12 +567,21 @@ func VH_C12_routing() {
 			vAssert("C12.accepted-compressed-message-fits-the-configured-limit", vWireInflatedLen("wire") <= eff)
 		}
 	case 1:
-		_, err := DecodeUnverifiedBaseResponse(enc)
+		pre, err := DecodeUnverifiedBaseResponse(enc)
 		vDebugErr("predecode", err)
 		vReach("predecoded", err == nil)
 		vAssert("C12.pre-decoder-inflation-bounded-by-5MiB", vMaterialised()-1 <= 5*1024*1024)
 		if err == nil && mode == 1 {
 			vAssert("C12.pre-decoder-accepts-compressed-only-within-5MiB", vWireInflatedLen("wire") <= 5*1024*1024)
+		}
+		if err == nil && pre != nil {
+			// transparency: compressed or not, the data returned is the document's and nothing else
+			vAssert("C12.compressed-or-not-the-pre-decoder-returns-the-documents-data", vAnd(vAnd(pre.ID == s.ID, pre.Destination == s.Destination),
+				vAnd(pre.InResponseTo == s.InResponseTo, pre.Version == s.Version)))
+			vAssert("C12.compressed-or-not-the-pre-decoder-returns-the-documents-issuer", (pre.Issuer != nil) == s.hasIssuer)
+			if pre.Issuer != nil && s.hasIssuer {
+				vAssert("C12.compressed-or-not-the-pre-decoder-returns-the-documents-issuer-value", pre.Issuer.Value == s.Issuer)
+			}
 		}
 	}
 	vAssert("C12.inflater-always-limited", vNot(vReadAllUnlimited()))
@@ -630,6 +655,13 @@ func VH_C09_root_kinds() {
 // else — fed the SSO and logout scenarios through every entry point: a result or an error, never a panic.
 func VH_C09_bare_config() {
 	sp := &SAMLServiceProvider{IDPCertificateStore: vEmptyStore(), SkipSignatureValidation: vFlag("skipSignatureValidation")}
+	switch vChoice("keys", 3) {
+	case 1:
+		// a signing-only SP: it can sign requests but has no decryption key
+		sp.SPSigningKeyStore = dsig.TLSCertKeyStore(vhTLSCert())
+	case 2:
+		sp.SetSPSigningKeyStore(&KeyStore{Signer: vRSAKey("sp"), Cert: vBytes("signcert")})
+	}
 	var root *etree.Element
 	if vFlag("logout-message") {
 		kinds := []string{"samlp:LogoutRequest", "samlp:LogoutResponse"}
@@ -703,6 +735,15 @@ func vhGenuine(maxKids int) {
 	vhSplitText = true
 	defer func() { vhSplitText = false }()
 	sp := vhOrchSP(false)
+	if vFlag("earlier-configuration") {
+		// a long-lived SP whose trust store did not hold the IdP certificate yet when it first validated something
+		final := sp.IDPCertificateStore
+		sp.IDPCertificateStore = vEmptyStore()
+		w := vhLogoutRoot("samlp:LogoutRequest", vhSigValid, "warm")
+		_, werr := sp.ValidateEncodedLogoutRequestPOST(vEncodeDoc("wire0", w.root, 0))
+		vDebugErr("warm-up", werr)
+		sp.IDPCertificateStore = final
+	}
 	s := &vhScenario{rootSig: vChoice("root.sig", 2)} // none or valid
 	s.root = vhResponseRoot(s, "samlp:Response")
 	n := 1 + vChoice("nChildren-1", maxKids)
